@@ -1360,4 +1360,53 @@ theorem augmentStep_built (reg : Registry) (id : Nat) (addErrors : Bool) (s : PS
   · intro loc h; simp only [h, if_true]
   · intro loc h; simp only [h, if_false]
 
+/-! ### the tree-building operations of `ToEntry` keep trees stamp-free -/
+
+theorem noStamp_mk (d : EData) (c i o : List Entry) :
+    noStamp (.mk d c i o) = (d.ns.isNone && noStampL c && noStampL i && noStampL o) := by rw [noStamp]
+
+theorem noStamp_withD (e : Entry) (f : EData → EData) (h : ∀ d, (f d).ns = d.ns) :
+    noStamp (e.withD f) = noStamp e := by
+  cases e with
+  | mk d c i o => simp only [Entry.withD, noStamp_mk, h]
+
+theorem noStamp_addErr (e : Entry) (x : Err) : noStamp (e.addErr x) = noStamp e :=
+  noStamp_withD e _ (fun _ => rfl)
+theorem noStamp_addErrs (e : Entry) (x : List Err) : noStamp (e.addErrs x) = noStamp e :=
+  noStamp_withD e _ (fun _ => rfl)
+theorem noStamp_importErrors (e c : Entry) : noStamp (e.importErrors c) = noStamp e :=
+  noStamp_addErrs e _
+
+theorem noStampL_append (a b : List Entry) : noStampL (a ++ b) = (noStampL a && noStampL b) := by
+  induction a with
+  | nil => simp [noStampL]
+  | cons x a ih => simp [noStampL, ih, Bool.and_assoc]
+
+theorem noStamp_withDir (e : Entry) (c : List Entry) (he : noStamp e = true) (hc : noStampL c = true) :
+    noStamp (e.withDir c) = true := by
+  cases e with
+  | mk d c0 i o =>
+    simp only [Entry.withDir, noStamp_mk, Bool.and_eq_true] at he ⊢
+    exact ⟨⟨⟨he.1.1.1, hc⟩, he.1.2⟩, he.2⟩
+
+theorem noStamp_dir (e : Entry) (he : noStamp e = true) : noStampL e.dir = true := by
+  cases e with
+  | mk d c0 i o =>
+    simp only [noStamp_mk, Bool.and_eq_true] at he
+    exact he.1.1.2
+
+theorem noStamp_add (e : Entry) (key : String) (v : Entry) (he : noStamp e = true) (hv : noStamp v = true) :
+    noStamp (e.add key v) = true := by
+  unfold Entry.add
+  split
+  · rw [noStamp_addErr]; exact he
+  · apply noStamp_withDir _ _ he
+    rw [noStampL_append, noStamp_dir e he]; simp [noStampL, hv]
+
+theorem noStamp_merge_none (e oe : Entry) (he : noStamp e = true) (ho : noStamp oe = true) :
+    noStamp (e.merge none oe) = true := by
+  rw [noStamp_iff] at he ⊢
+  refine ⟨?_, noStampBelow_merge_none e oe he.2 (noStamp_dir oe ho)⟩
+  rw [(merge_keep e none oe).1.2.2.2]; exact he.1
+
 end Goyang.Lemmas.ConfigNs
